@@ -315,7 +315,7 @@ def same_name_functions():
 
 def gen_unit(u):
     ops, Rk, k = u
-    return [c.to_json() for c in gen.corpus(ops, Rk, k, ("distinct", "all2"))]
+    return [c.to_json() for c in gen.corpus(ops, Rk, k, ("distinct", "all2", "unit0", "unit1"))]
 
 
 QUICK = [(["sum"], 3, 1), (["add"], 2, 0), (["add"], 1, 1), (["where"], 1, 1)]
